@@ -14,10 +14,11 @@ static session_table *T, *T2;        /* T2: the (empty) session table of a secon
 static const uint8_t *OWN;
 static e1_cfg pseudo;
 
-enum { TB_EMPTY, TB_SAME_SEQ, TB_OTHER_SEQ, TB_OTHER_GEN, TB_OTHER_MAPPER, TB_FULL, TB_HOLE_SAME_SEQ, TB_HOLE_OTHER_SEQ, TB_LAST_SLOT_OTHER_SEQ, TB_TWIN_MAPPER, TB_N };
+enum { TB_EMPTY, TB_SAME_SEQ, TB_OTHER_SEQ, TB_OTHER_GEN, TB_OTHER_MAPPER, TB_FULL, TB_HOLE_SAME_SEQ, TB_HOLE_OTHER_SEQ, TB_LAST_SLOT_OTHER_SEQ, TB_TWIN_MAPPER, TB_OTHER_SEQ_HIGH, TB_N };
 static const char *TBNAME[] = {"empty", "same mapper+generation, same seq", "same mapper+generation, other seq", "same mapper, other generation", "other mapper, same generation", "full table without the session",
                                "session behind a freed slot, same seq", "session behind a freed slot, other seq", "session in the last slot of an otherwise full table, other seq",
-                               "a twin of the mapper (differs in the first two octets only), same generation, other seq"};
+                               "a twin of the mapper (differs in the first two octets only), same generation, other seq",
+                               "same mapper+generation, seq differing in the high byte only"};
 #define GEN 0x0A0B
 #define SEQ 0x0011
 
@@ -26,6 +27,7 @@ static void table_shape(int shape) {
     switch (shape) {
         case TB_SAME_SEQ: session_table_add(T, vf_station[ST_M1], GEN, SEQ); break;
         case TB_OTHER_SEQ: session_table_add(T, vf_station[ST_M1], GEN, SEQ + 1); break;
+        case TB_OTHER_SEQ_HIGH: session_table_add(T, vf_station[ST_M1], GEN, SEQ ^ 0x0100); break;
         case TB_OTHER_GEN: session_table_add(T, vf_station[ST_M1], GEN + 1, SEQ + 1); break;
         case TB_OTHER_MAPPER: session_table_add(T, vf_station[ST_M2], GEN, SEQ + 1); break;
         case TB_HOLE_SAME_SEQ: case TB_HOLE_OTHER_SEQ: {      /* earlier sessions came and went: the slot in front of ours is free again */
@@ -95,7 +97,7 @@ static void one_discover(size_t mtu, int count, int pos, int shape, int flags) {
     if (A.verbose) printf("    Discover(%saddress set %d, count=%d, own address %s, table: %s) -> %s\n", (flags & 2) ? "through a bridge, " : "", (flags >> 2) & 3, count, pos >= 0 ? "listed" : "not listed", TBNAME[shape], evname(ev));
     if (null_mac) { set_addresses(0); return; }                       /* only memory safety is demanded without an own address */
     set_addresses(0);
-    int changed = (shape == TB_OTHER_SEQ || shape == TB_HOLE_OTHER_SEQ || shape == TB_LAST_SLOT_OTHER_SEQ);
+    int changed = (shape == TB_OTHER_SEQ || shape == TB_HOLE_OTHER_SEQ || shape == TB_LAST_SLOT_OTHER_SEQ || shape == TB_OTHER_SEQ_HIGH);
     int ack_class = (ev == sess_discover_acking || ev == sess_discover_acking_chgd_xid);
     int noack_class = (ev == sess_discover_noack || ev == sess_discover_noack_chgd_xid);
     const char *where = pos == -2 ? "decoy-14-byte-stride" : pos == -3 ? "decoy-shifted" : pos < 0 ? "absent" : pos == 0 ? "first" : pos == count - 1 ? "last" : "inner";
